@@ -24,8 +24,15 @@ Print Assumptions tok_total_any_float.
 (* the pinned tree: an unmatched closer escapes as the IndexError of list.pop() *)
 Theorem tok_total_pinned_refuted :
   exists s, tokenize_pinned s = Err PopEmpty.
-Proof. exists [RP]. exact (proj1 tok_pinned_crash). Qed.
+Proof. exact tok_total_pinned_refuted_lemma. Qed.
 Print Assumptions tok_total_pinned_refuted.
+
+(* ... and is the only foreign exception of the pinned tree *)
+Theorem tok_total_pinned_partial : forall s : list N,
+  tokenize_pinned s <> Err PopEmpty ->
+  (exists ts, tokenize_pinned s = Ok ts) \/ tokenize_pinned s = Err TokenizerError.
+Proof. exact tok_total_pinned_partial_lemma. Qed.
+Print Assumptions tok_total_pinned_partial.
 
 (* and that exception type is the only thing the repair changes *)
 Theorem repair_only_changes_exception : forall s : list N,
@@ -113,6 +120,25 @@ Theorem quote_after_operand_rejected : forall (p : list N) (q : N) (rest : list 
   tokenize (p ++ q :: rest) = Err TokenizerError.
 Proof. exact quote_after_operand_rejected_lemma. Qed.
 Print Assumptions quote_after_operand_rejected.
+
+(* what is accepted (partial): the reference and literal forms standing alone - a bare name of
+   plain characters, a quoted reference in the regex's language ('a+b', 'a+b':'c d'), a string
+   literal - are tokenized to exactly one operand.  [plain c]: c is not a token ender, quote,
+   '#', '{' or '('. *)
+Theorem plain_reference_accepted : forall p : list N,
+  p <> [] -> Forall (fun c => plain c = true) p -> tokenize p = Ok [make_operand py_float_ok p].
+Proof. exact plain_reference_accepted_lemma. Qed.
+Print Assumptions plain_reference_accepted.
+
+Theorem quoted_reference_accepted : forall w : list N,
+  sq_lang w -> tokenize w = Ok [make_operand py_float_ok w].
+Proof. exact quoted_reference_accepted_lemma. Qed.
+Print Assumptions quoted_reference_accepted.
+
+Theorem string_literal_accepted : forall w : list N,
+  dq_lang w -> tokenize w = Ok [{| tval := w; tty := OPERAND; tsub := S_TEXT |}].
+Proof. exact string_literal_accepted_lemma. Qed.
+Print Assumptions string_literal_accepted.
 
 (* translator tie: regex sources, ERROR_CODES, TOKEN_ENDERS and the dispatcher strings read from
    /repo on this run are the ones the model uses *)
